@@ -294,4 +294,71 @@ theorem exp_spec (x power : Nat) (hx : Inv x) : Pw x (Model.F62.exp x power) pow
       rw [Nat.add_sub_cancel]
       exact Nat.mod_eq_of_lt Nat.lt_log2_self
 
+/-! ### inversion (hand model `Model.F62.inv`: binary extended GCD with the `+M` halving fix-up)
+
+Loop invariant (`St`), for the raw input word `x` (as a residue `X`), both `u`, `v` odd:
+`a·X = v`, `d·X = -u` in `ZMod P`, `gcd(u, v) = 1`, and for a ghost step counter `k`
+(one tick per subtraction; every subtraction is followed by at least one halving):
+`u·v·2^k ≤ 2^126`, `2a, 2d ≤ (k+2)·M`.  Hence `k ≤ 126`, every loop ends within its fuel,
+and the cofactor `a` leaves the main loop below `64·M` (it is NOT bounded by a small multiple of
+`M`: each subtract-and-halve-once step can raise it by `M/2`). -/
+
+open Model.F62 (halve reduceU outer reduceA)
+
+theorem two_ne_zero_P : (2 : ZMod P) ≠ 0 := by
+  intro h
+  have h2 : ((2 : Nat) : ZMod P) = 0 := by exact_mod_cast h
+  rw [ZMod.natCast_eq_zero_iff] at h2
+  exact absurd (Nat.le_of_dvd (by norm_num) h2) (by decide)
+
+theorem two_pow_ne_zero_P (j : Nat) : (2 : ZMod P) ^ j ≠ 0 := pow_ne_zero j two_ne_zero_P
+
+theorem halve_step (fuel u d : Nat) (hev : u % 2 = 0) :
+    halve (fuel + 1) u d = halve fuel (u / 2) ((if d % 2 = 1 then d + 4611624995532046337 else d) / 2) := by
+  show (if u % 2 = 0 then halve fuel (u / 2) ((if d % 2 = 1 then d + M else d) / 2) else .done (u, d)) = _
+  rw [if_pos hev]; rfl
+
+theorem halve_stop (fuel u d : Nat) (hodd : u % 2 = 1) : halve (fuel + 1) u d = .done (u, d) := by
+  show (if u % 2 = 0 then halve fuel (u / 2) ((if d % 2 = 1 then d + M else d) / 2) else .done (u, d)) = _
+  rw [if_neg (by omega)]
+
+/-- one halving of the cofactor is exact: `d₁·2 = d + ε·M` -/
+theorem half_fix (d : Nat) :
+    ∃ e, ((if d % 2 = 1 then d + 4611624995532046337 else d) / 2) * 2 = d + e * 4611624995532046337 ∧ e ≤ 1 := by
+  by_cases h : d % 2 = 1
+  · rw [if_pos h]; exact ⟨1, by omega, le_refl _⟩
+  · rw [if_neg h]; exact ⟨0, by omega, by omega⟩
+
+theorem half_fix_cast (d : Nat) :
+    (((if d % 2 = 1 then d + 4611624995532046337 else d) / 2 : Nat) : ZMod P) * 2 = (d : ZMod P) := by
+  obtain ⟨e, h, -⟩ := half_fix d
+  have h' := congrArg (Nat.cast : Nat → ZMod P) h
+  simp only [Nat.cast_add, Nat.cast_mul, cast_P, mul_zero, add_zero] at h'
+  simpa using h'
+
+/-- the halving loop: terminates on a positive word below `2^fuel`, strips the powers of two
+    and divides the cofactor by the same power of two modulo `P`, never exceeding `max(d, M)` -/
+theorem halve_spec : ∀ (fuel u d C : Nat), 0 < u → u < 2 ^ fuel →
+    2 * 4611624995532046337 ≤ C → 2 * d ≤ C →
+    ∃ u' d' j, halve fuel u d = .done (u', d') ∧ u' % 2 = 1 ∧ u' * 2 ^ j = u ∧
+      (d' : ZMod P) * 2 ^ j = (d : ZMod P) ∧ 2 * d' ≤ C := by
+  intro fuel
+  induction fuel with
+  | zero => intro u d C h0 h1; simp at h1; omega
+  | succ fuel ih =>
+    intro u d C h0 hu hC hd
+    by_cases hev : u % 2 = 0
+    · obtain ⟨e, he, he1⟩ := half_fix d
+      have hc := half_fix_cast d
+      obtain ⟨d1, hd1⟩ : ∃ d1, (if d % 2 = 1 then d + 4611624995532046337 else d) / 2 = d1 := ⟨_, rfl⟩
+      rw [hd1] at he hc
+      have hu2 : u / 2 < 2 ^ fuel := by rw [pow_succ] at hu; omega
+      obtain ⟨u', d', j, h1, h2, h3, h4, h5⟩ := ih (u / 2) d1 C (by omega) hu2 hC (by omega)
+      refine ⟨u', d', j + 1, ?_, h2, ?_, ?_, h5⟩
+      · rw [halve_step fuel u d hev, hd1]; exact h1
+      · rw [pow_succ, ← mul_assoc, h3]; omega
+      · rw [pow_succ, ← mul_assoc, h4, hc]
+    · exact ⟨u, d, 0, halve_stop fuel u d (by omega), by omega, by simp, by simp, hd⟩
+
+
 end WinterProofs.F62Z
